@@ -12,6 +12,27 @@
 (*   insecure mode with none) /\ pool registered /\ ctr >= cache[pool];       *)
 (*   the cache changes only on acceptance.                                  *)
 (*                                                                          *)
+(* Provenance of a fault (the replay dimension).  A component that is not   *)
+(* genuine is either made up for this message (rep = "") or REPLAYED: taken *)
+(* verbatim from a fully genuine message of the same pool that has already  *)
+(* been presented to this authenticator (src = its counter), while what the *)
+(* component covers differs:                                                *)
+(*   "id"          the id of the earlier message on another payload         *)
+(*   "kes"         the KES signature of the earlier message (same key, same *)
+(*                 evolution) on another payload                            *)
+(*   "cert:kesvk"  the cold signature of the earlier certificate, but the   *)
+(*   "cert:issue"  certificate's KES verification key / issue number / KES  *)
+(*   "cert:period" period is another one (for "cert:kesvk" the KES          *)
+(*                 signature verifies under the swapped-in key)             *)
+(* A replayed message is genuine in its other two components.  The          *)
+(* environment variable `known` records which genuine messages have been    *)
+(* presented (accepted or not): only those can be replayed from.  Whatever  *)
+(* the authenticator remembers of the earlier message, the replayed         *)
+(* component is not valid for this message: the verdict is that of the same *)
+(* message with a made-up fault (ReplayAsFresh) -- reject, nothing changes  *)
+(* (ReplayRejected), except the KES replay where no KES signature is        *)
+(* checked at all (no verifier, insecure mode).                             *)
+(*                                                                          *)
 (* Behaviours for the replay on the real authenticator go to rows.ndjson:   *)
 (*   cover mode (VIEW hides the history): a "hist" row per generated        *)
 (*     state-changing transition (shortest access history + that step) and  *)
@@ -30,16 +51,18 @@ CONSTANTS Pools,      \* pools (cold keys)
           InitRegs,   \* initial registration sets
           Mode,       \* "cover" | "hist" | "chain"
           MaxLen,     \* hist / chain mode: length of the emitted histories
-          Chains      \* chain mode: number of random histories
+          Chains,     \* chain mode: number of random histories
+          Replays     \* replayed components that are generated ({} = none; `known` is then not tracked)
 
 VARIABLES registered, cache, verifier, insecure,
           init,   \* the configuration the authenticator was constructed with
           run,    \* chain mode: number of the random history (else 0)
           rnd,    \* chain mode: generator state (else 0)
-          h       \* history of calls with the expected result of each
+          h,      \* history of calls with the expected result of each
+          known   \* environment: per pool the counters of the fully genuine messages presented so far
 
-vars == <<registered, cache, verifier, insecure, init, run, rnd, h>>
-View == <<registered, cache, verifier, insecure>>
+vars == <<registered, cache, verifier, insecure, init, run, rnd, h, known>>
+View == <<registered, cache, verifier, insecure, known>>
 
 NoCtr == -1
 
@@ -50,13 +73,17 @@ AllRegs      == SUBSET Pools
 ExtremeRegs  == {{}, Pools}
 AllAdmin     == {"register", "unregister", "evict", "setverifier", "setinsecure"}
 PoolAdmin    == {"register", "unregister", "evict"}
+CertReplays  == {"cert:kesvk", "cert:issue", "cert:period"}
+AllReplays   == {"id", "kes"} \cup CertReplays
+NoReplays    == {}
 
 \* x -> 75 x + 74 mod 65537 (full period, stays inside TLC's 32-bit integers)
 Lcg(x) == (x * 75 + 74) % 65537
 InitNo(reg, ver, ins) == Cardinality(reg) * 4 + (IF ver = "real" THEN 2 ELSE 0) + (IF ins THEN 1 ELSE 0)
 
 Call(op, pool, id, cert, kes, ctr, flag) ==
-    [op |-> op, pool |-> pool, id |-> id, cert |-> cert, kes |-> kes, ctr |-> ctr, flag |-> flag]
+    [op |-> op, pool |-> pool, id |-> id, cert |-> cert, kes |-> kes, ctr |-> ctr, flag |-> flag,
+     rep |-> "", src |-> NoCtr]
 Admin(op, pool, flag) == Call(op, pool, TRUE, TRUE, TRUE, 0, flag)
 
 VerifyCalls == {Call("verify", p, f[1], f[2], f[3], c, FALSE) : p \in Pools, f \in Faults, c \in Counters}
@@ -64,7 +91,17 @@ AdminCalls ==
     {Admin(op, p, FALSE) : op \in AdminOps \cap {"register", "unregister", "evict"}, p \in Pools}
     \cup (IF "setverifier" \in AdminOps /\ verifier = "none" THEN {Admin("setverifier", "", FALSE)} ELSE {})
     \cup (IF "setinsecure" \in AdminOps THEN {Admin("setinsecure", "", b) : b \in BOOLEAN} ELSE {})
-Calls == VerifyCalls \cup AdminCalls
+\* a message that replays component r of the genuine message (p, s) presented earlier; only the issue-number
+\* splice claims another counter than its source
+ReplayCall(p, r, c, s) ==
+    [Call("verify", p, r # "id", r \notin CertReplays, r # "kes", c, FALSE) EXCEPT !.rep = r, !.src = s]
+ReplayCalls ==
+    {ReplayCall(t[1], t[2], t[3], t[4]) :
+        t \in {t \in Pools \X Replays \X Counters \X Counters :
+                  t[4] \in known[t[1]] /\ ((t[2] = "cert:issue") <=> (t[3] # t[4]))}}
+Calls == VerifyCalls \cup ReplayCalls \cup AdminCalls
+
+Genuine(c) == c.op = "verify" /\ c.id /\ c.cert /\ c.kes
 
 KesPass(m) == IF verifier = "real" THEN m.kes ELSE insecure
 Accept(m) == /\ m.id
@@ -73,20 +110,26 @@ Accept(m) == /\ m.id
              /\ m.pool \in registered
              /\ (cache[m.pool] = NoCtr \/ m.ctr >= cache[m.pool])
 
-Same(ok) == [ok |-> ok, registered |-> registered, cache |-> cache, verifier |-> verifier, insecure |-> insecure]
+\* what has been presented (the authenticator's verdict does not matter for that)
+Presented(c) == IF Replays # {} /\ Genuine(c) THEN [known EXCEPT ![c.pool] = @ \cup {c.ctr}] ELSE known
+
+Same(ok) == [ok |-> ok, registered |-> registered, cache |-> cache, verifier |-> verifier, insecure |-> insecure,
+             known |-> known]
 
 Outcome(c) ==
     CASE c.op = "verify" ->
-            IF Accept(c) THEN [Same(TRUE) EXCEPT !.cache = [cache EXCEPT ![c.pool] = c.ctr]]
-                         ELSE Same(FALSE)
+            IF Accept(c) THEN [Same(TRUE) EXCEPT !.cache = [cache EXCEPT ![c.pool] = c.ctr], !.known = Presented(c)]
+                         ELSE [Same(FALSE) EXCEPT !.known = Presented(c)]
       [] c.op = "register"    -> [Same(TRUE) EXCEPT !.registered = registered \cup {c.pool}]
       [] c.op = "unregister"  -> [Same(TRUE) EXCEPT !.registered = registered \ {c.pool}]
       [] c.op = "evict"       -> [Same(TRUE) EXCEPT !.cache = [cache EXCEPT ![c.pool] = NoCtr]]
       [] c.op = "setverifier" -> [Same(TRUE) EXCEPT !.verifier = "real"]
       [] c.op = "setinsecure" -> [Same(TRUE) EXCEPT !.insecure = c.flag]
 
-Mutates(o) == \/ o.registered # registered \/ o.cache # cache
-              \/ o.verifier # verifier \/ o.insecure # insecure
+\* the authenticator's state changes / the state (with the environment's part) changes
+AuthMutates(o) == \/ o.registered # registered \/ o.cache # cache
+                  \/ o.verifier # verifier \/ o.insecure # insecure
+Mutates(o) == AuthMutates(o) \/ o.known # known
 
 \* what the replay compares: accept/reject and the registration observable
 \* (IsSPOPoolRegistered); the cache is observable only through later verdicts
@@ -103,10 +146,11 @@ Init == /\ registered \in InitRegs
                  THEN Lcg((atoi(IOEnv.VERIF_SEED) * 7919 + run * 271 + InitNo(registered, verifier, insecure) * 31337) % 65537)
                  ELSE 0
         /\ h = <<>>
+        /\ known = [p \in Pools |-> {}]
 
 Step(c) == LET o == Outcome(c) IN
            /\ registered' = o.registered /\ cache' = o.cache
-           /\ verifier' = o.verifier /\ insecure' = o.insecure
+           /\ verifier' = o.verifier /\ insecure' = o.insecure /\ known' = o.known
            /\ h' = Append(h, [c |-> c, e |-> Exp(o)])
            /\ UNCHANGED <<init, run>>
 
@@ -123,29 +167,64 @@ Next == /\ (Mode # "cover" => Len(h) < MaxLen)
 TypeOK == /\ registered \subseteq Pools
           /\ cache \in [Pools -> Counters \cup {NoCtr}]
           /\ verifier \in {"none", "real"} /\ insecure \in BOOLEAN
+          /\ known \in [Pools -> SUBSET Counters]
 
 \* accepted only when fully authenticated and registered
 OnlyAuthentic ==
-    \A c \in VerifyCalls : Outcome(c).ok =>
+    \A c \in VerifyCalls \cup ReplayCalls : Outcome(c).ok =>
         /\ c.id /\ c.cert /\ c.pool \in registered
         /\ (c.kes \/ (verifier = "none" /\ insecure))
 
 \* without a KES verifier everything is rejected unless insecure mode is on
 NoVerifierRejects ==
-    (verifier = "none" /\ ~insecure) => \A c \in VerifyCalls : ~Outcome(c).ok
+    (verifier = "none" /\ ~insecure) => \A c \in VerifyCalls \cup ReplayCalls : ~Outcome(c).ok
 
 \* a real verifier is never bypassed by the insecure flag
 RealNotBypassed ==
-    verifier = "real" => \A c \in VerifyCalls : Outcome(c).ok => c.kes
+    verifier = "real" => \A c \in VerifyCalls \cup ReplayCalls : Outcome(c).ok => c.kes
 
 \* a rejected message never changes the state; an accepted one changes the cache entry of its pool only
 RejectKeepsState ==
-    \A c \in VerifyCalls :
+    \A c \in VerifyCalls \cup ReplayCalls :
         LET o == Outcome(c) IN
         IF o.ok THEN /\ o.registered = registered /\ o.verifier = verifier /\ o.insecure = insecure
                      /\ \A p \in Pools \ {c.pool} : o.cache[p] = cache[p]
                      /\ o.cache[c.pool] = c.ctr
-        ELSE ~Mutates(o)
+        ELSE ~AuthMutates(o)
+
+\* the replay dimension: a component taken from a genuine message presented earlier does not authenticate
+\* another message, whatever became of the earlier one (accepted and cached, or rejected): reject, no change.
+\* (Only exception, by the statement: without a verifier in insecure mode no KES signature is looked at, a
+\* replayed one included.)
+Unchecked(c) == c.rep = "kes" /\ verifier = "none" /\ insecure
+ReplayRejected ==
+    \A c \in ReplayCalls : LET o == Outcome(c) IN ~Unchecked(c) => (~o.ok /\ ~Mutates(o))
+
+\* where a fault comes from makes no difference: same outcome as the message with that component made up
+ReplayAsFresh ==
+    \A c \in ReplayCalls : Outcome(c) = Outcome([c EXCEPT !.rep = "", !.src = NoCtr])
+
+\* a replay changes exactly one component and has a presented source
+ReplayWellFormed ==
+    \A c \in ReplayCalls :
+        /\ Cardinality({x \in {<<"id", c.id>>, <<"cert", c.cert>>, <<"kes", c.kes>>} : ~x[2]}) = 1
+        /\ c.src \in known[c.pool]
+        /\ (c.rep \in {"id", "kes", "cert:kesvk", "cert:period"} => c.ctr = c.src)
+        /\ (c.rep = "cert:issue" => c.ctr # c.src)
+
+\* `known` is what the history presented: the counters of the fully genuine messages of each pool
+KnownIsPresented ==
+    \A p \in Pools :
+        known[p] = IF Replays = {} THEN {}
+                   ELSE {h[i].c.ctr : i \in {i \in 1..Len(h) : Genuine(h[i].c) /\ h[i].c.pool = p}}
+
+\* along the history: every replay was preceded by the genuine message it copies from, and none but an
+\* (unchecked) KES replay was accepted
+ReplaySourced ==
+    \A j \in 1..Len(h) :
+        h[j].c.rep # "" =>
+            /\ (h[j].e.ok => h[j].c.rep = "kes")
+            /\ \E i \in 1..(j - 1) : Genuine(h[i].c) /\ h[i].c.pool = h[j].c.pool /\ h[i].c.ctr = h[j].c.src
 
 \* a fully valid message of a registered pool whose counter is not below the cache is accepted
 Complete ==
